@@ -98,8 +98,25 @@ pub fn readings_spans(word: &str) -> Vec<SpanReading> {
 /// the tool accepts, so that a build which learns them is not reported.
 pub const PREFIXES_2022: [(&str, &str, i32); 4] = [("R", "ronna", 27), ("Q", "quetta", 30), ("r", "ronto", -27), ("q", "quecto", -30)];
 
-/// Readings of `word` that are valid when the 2022 prefixes and English plurals of spelled-out
-/// names are admitted as well.
+/// Standard spellings of documented units that the tool does not document (alias, documented
+/// name). Like the 2022 prefixes they only widen what counts as a valid reading.
+pub const EXTRA_NAMES: [(&str, &str); 12] = [
+    ("d", "day"),
+    ("L", "l"),
+    ("litre", "l"),
+    ("liter", "l"),
+    ("kn", "kt"),
+    ("foot", "ft"),
+    ("feet", "ft"),
+    ("gramme", "gram"),
+    ("tonne", "tonne"),
+    ("metre", "m"),
+    ("hour", "h"),
+    ("sec", "s"),
+];
+
+/// Readings of `word` that are valid when the 2022 prefixes, English plurals of spelled-out
+/// names and a few standard spellings the tool does not document are admitted as well.
 pub fn readings_2022(word: &str) -> Vec<Reading> {
     readings_spans_with(word, &PREFIXES_2022).into_iter().map(|r| r.into_iter().map(|(_, _, p, u)| (p, u)).collect()).collect()
 }
@@ -126,6 +143,17 @@ fn readings_spans_with(word: &str, extra: &'static [(&'static str, &'static str,
         }
         for (ptext, p) in prefixes {
             let after = &rest[ptext.len()..];
+            // with the extended vocabulary: standard spellings the tool does not document today
+            // (`d` is the SI brochure's symbol for the day, `L` for the litre ...)
+            if !extra.is_empty() {
+                for (alias, canonical) in EXTRA_NAMES {
+                    if let (Some(tail), Some(u)) = (strip(after, alias), tables::find_by_name(canonical)) {
+                        acc.push((ptext.to_string(), alias.to_string(), p, u));
+                        rec(tail, acc, out, extra);
+                        acc.pop();
+                    }
+                }
+            }
             for u in UNITS {
                 for name in u.names {
                     if let Some(tail) = strip(after, name) {
@@ -133,7 +161,8 @@ fn readings_spans_with(word: &str, extra: &'static [(&'static str, &'static str,
                         rec(tail, acc, out, extra);
                         // with the extended vocabulary: the English plural of a spelled-out name
                         // (`kilograms`, `metres`, `joules`) is that unit, not the unit times a second
-                        if !extra.is_empty() && name.len() >= 4 && name.chars().all(|c| c.is_ascii_lowercase()) && !name.ends_with('s') {
+                        // (also of a lower-case abbreviation of three letters: `btus`)
+                        if !extra.is_empty() && name.len() >= 3 && name.chars().all(|c| c.is_ascii_lowercase()) && !name.ends_with('s') {
                             if let Some(t2) = tail.strip_prefix('s') {
                                 rec(t2, acc, out, extra);
                             }
